@@ -496,6 +496,7 @@ DIMS_BIG = [(1, 1), (2, 2), (3, 4), (4, 3)]
 V_ALL = list(range(-2, 9))                 # half-cell lattice of a 3x3 grid extended one cell outside
 V_CELL = [-1, 1, 3, 5, 7]
 V_3 = [-1, 3, 7]
+V_FAR = [(-400, 3), (3, 500), (700, 700), (-300, -900), (2001, 4), (3, 3)]    # half-cell units: up to 1000 cells away, one centre
 
 
 def bound_text(tier, seed):
@@ -557,6 +558,10 @@ def units(tier, seed):
     for n in ([6] if tier == "quick" else [6, 12]):
         for fi in range(len(family_sets(n))):
             us.append({"kind": "vor-family", "n": n, "set": fi, "geom": fi % len(gl), "tier": tier})
+    # points far away from the catchment (hundreds of cells): "anywhere" in the quantifier
+    for si in range(len(SCAN_SETS3)):
+        for gi in range(len(gl)):
+            us.append({"kind": "vor-far", "set": si, "geom": gi, "tier": tier})
     for u in us:
         u["seed"] = seed
         u["tier"] = tier
@@ -614,14 +619,31 @@ def vor_scan_runs(area, pts, gi, ngeoms, tier):
 
 
 def run_intersect_configs(ctx, catch, area, filledc, fine, geom, gi, configs, kind, filled_modes, extra=None, first=None):
+    """the catchment object is shared by all calls of a unit (so results that depend on the object's
+    history show up); every case records the first and the previous intersect call made on that
+    object, and replay() repeats them on a fresh object before the judged call"""
+    hist = getattr(catch, "_verif_hist", None)
+    if hist is None:
+        hist = {"first": None, "prev": None}
+        try:
+            catch._verif_hist = hist
+        except Exception:
+            pass
     for (m, dims, relx, rely) in configs:
         for filled in filled_modes:
             case = icase(kind, fine, geom, area, filledc, m, dims, relx, rely, filled, extra)
+            case["history"] = [h for h in (hist["first"], hist["prev"]) if h is not None]
+            if len(case["history"]) == 2 and case["history"][0] == case["history"][1]:
+                case["history"] = case["history"][:1]
             if first is not None and not first[0]:
                 ctx.case(False, n=0, sample=case)
                 first[0] = True
             check_intersect(ctx, catch, filledc if filled else area, fine, geom, m, dims[0], dims[1],
                             relx, rely, filled, case)
+            call = {"m": m, "dims": list(dims), "relx": relx, "rely": rely, "filled": filled}
+            if hist["first"] is None:
+                hist["first"] = call
+            hist["prev"] = call
 
 
 def cross_offsets(m, dims, n, phases=(-1, 0, 2)):
@@ -813,6 +835,18 @@ def run_voronoi_unit(unit, ctx, geom, gi):
                 ctx.case(False, n=0, sample=case)
                 first = False
             check_voronoi(ctx, catch, area, (3, 3), geom, pts, case)
+    elif kind == "vor-far":
+        area = SCAN_SETS3[unit["set"]]
+        catch = make_catchment(3, 3, cf, fx, fy, area, area)
+        for k in (1, 2, 3):
+            for pts in itertools.product(V_FAR, repeat=k):
+                pts = list(pts)
+                case = vcase((3, 3), geom, area, pts)
+                if first:
+                    ctx.case(False, n=0, sample=case)
+                    first = False
+                ctx.count("voronoi.far_points")
+                check_voronoi(ctx, catch, area, (3, 3), geom, pts, case)
     elif kind == "vor-family":
         n = unit["n"]
         name, area = family_sets(n)[unit["set"]]
@@ -857,6 +891,13 @@ def replay(case):
         else:
             area, filledc = case["cells"], case["filledcells"]
             catch = make_catchment(fine[0], fine[1], cf, fx, fy, area, filledc)
+        # repeat the recorded history (first and previous call on the shared object), unjudged
+        for hcall in case.get("history", []):
+            try:
+                ox, oy = fx + hcall["relx"], fy + hcall["rely"]
+                catch.intersect(make_coarse(cf, hcall["m"], hcall["dims"][0], hcall["dims"][1], ox, oy), filled=hcall["filled"])
+            except Exception:
+                pass
         check_intersect(ctx, catch, filledc if case["filled"] else area, fine, geom, case["m"],
                         case["dims"][0], case["dims"][1], case["relx"], case["rely"], case["filled"], case)
     return [v for lst in ctx.violations.values() for v in lst]
